@@ -100,6 +100,8 @@ fn field_name(f: &PurlField) -> &'static str {
         PurlField::Name => "Name",
         PurlField::Version => "Version",
         PurlField::Subpath => "Subpath",
+        #[allow(unreachable_patterns)]
+        _ => "UnknownField",
     }
 }
 
@@ -123,6 +125,9 @@ impl ErrName for ParseError {
             ParseError::InvalidPackageType => "InvalidPackageType".into(),
             ParseError::InvalidQualifier => "InvalidQualifier".into(),
             ParseError::InvalidEscape => "InvalidEscape".into(),
+            // a variant this harness does not know (the enums may grow): named after its Debug form
+            #[allow(unreachable_patterns)]
+            other => format!("Unknown.{}", h(&format!("{:?}", other))),
         }
     }
 }
@@ -134,6 +139,8 @@ impl ErrName for PackageError {
             PackageError::MissingRequiredField(f) => format!("Pkg.MissingRequiredField.{}", field_name(f)),
             PackageError::Parse(e) => format!("Pkg.Parse.{}", e.ename()),
             PackageError::UnsupportedType => "Pkg.UnsupportedType".into(),
+            #[allow(unreachable_patterns)]
+            other => format!("Pkg.Unknown.{}", h(&format!("{:?}", other))),
         }
     }
 }
